@@ -4,7 +4,7 @@
 from framework import Check, Case, Infra
 import gen_codec as G
 
-COMPONENTS = ["txin", "target", "txout", "prefix", "signature", "rcttype", "header", "bulletproof", "bpplus",
+COMPONENTS = ["box_u8", "box_hash", "box_varint", "txin", "target", "txout", "prefix", "signature", "rcttype", "header", "bulletproof", "bpplus",
               "vec_txin", "vec_txout", "vec_varint", "vec_hash", "hash", "hash8", "u8", "u32", "bytesvec", "varint"]
 
 
@@ -43,6 +43,8 @@ class C01(Check):
             descs.append(("tx", d))
             if sh["version"] != 1 and sh["in_kinds"] and len(shaped) < (60 if not thorough else 200):
                 shaped.append((d, sh))
+        for sh in G.ring0_shapes():
+            descs.append(("tx", G.tx_desc(rng, **sh)))
         for _ in range(250 if not thorough else 900):
             descs.append(("tx", G.tx_desc(rng, **G.random_shape(rng, small=True))))
         for _ in range(20 if not thorough else 60):
@@ -59,6 +61,9 @@ class C01(Check):
             descs.append(("bpplus", G.bpplus(rng, rng.choice([0, 1, 6]), rng.choice([0, 1, 6]))))
             descs.append(("vec_varint", G.lst([[str(G.interesting_u64(rng))] for _ in range(rng.choice([0, 1, 2, 127, 128]))])))
             descs.append(("vec_hash", G.lst([[G.key(rng)] for _ in range(rng.choice([0, 1, 2, 3]))])))
+            descs.append(("box_hash", G.lst([[G.key(rng)] for _ in range(rng.choice([0, 1, 2, 3]))])))
+            descs.append(("box_varint", G.lst([[str(G.interesting_u64(rng))] for _ in range(rng.choice([0, 1, 2, 127, 128]))])))
+            descs.append(("box_u8", [G.hexb(rng, rng.choice([0, 1, 5, 127, 128, 300]))]))
             descs.append(("prefix", G.tx_desc(rng, **G.random_shape(rng))[:0] or None))
         descs = [d for d in descs if d[1] is not None]
         descs.append(("rangesig", G.rangesig(rng)))
